@@ -213,6 +213,11 @@ type termOut struct {
 // runTerms renders the terms as direct seq.* calls, builds them against /repo's
 // working tree and runs the jobs on the real runtime (public API only).
 func runTerms(c *vf.Check, terms []any, jobs []termJob) []termOut {
+	return runTermsEnv(c, terms, jobs, nil, "")
+}
+
+// runTermsEnv: as runTerms, with extra environment for the driver and an optional build tag.
+func runTermsEnv(c *vf.Check, terms []any, jobs []termJob, env []string, tag string) []termOut {
 	dir := c.S.Sub("terms")
 	c.S.WriteModule(dir, "scratch")
 	writeFile(filepath.Join(dir, "rt", "rt.go"), rt.Source)
@@ -234,10 +239,14 @@ func runTerms(c *vf.Check, terms []any, jobs []termJob) []termOut {
 	}
 	writeFile(filepath.Join(dir, "main.go"), termDriverSrc)
 	writeFile(filepath.Join(dir, "common.go"), drvCommon)
-	if out, err := c.S.Run(dir, nil, "go", "build", "-o", "driver", "."); err != nil {
+	bargs := []string{"build", "-o", "driver"}
+	if tag != "" {
+		bargs = append(bargs, "-tags", tag)
+	}
+	if out, err := c.S.Run(dir, nil, "go", append(bargs, ".")...); err != nil {
 		vf.Machinery("building the term driver failed (rendered terms must build against the public seq API):\n%s", vf.Trunc(out, 3000))
 	}
-	res := runDriver(c, dir, "./driver", nil, jobs, len(jobs))
+	res := runDriver(c, dir, "./driver", env, jobs, len(jobs))
 	outs := make([]termOut, len(jobs))
 	for i, r := range res {
 		outs[i].Status = r.Status
